@@ -1,1 +1,91 @@
 // harness bodies for h2 src/hpack/decoder.rs (compiled in-crate as `verif_h`, feature "verif")
+use super::*;
+
+#[derive(PartialEq, Eq, Clone, Copy)]
+pub(crate) enum RefInt {
+    Val(u64, usize), // value, octets consumed
+    NeedMore,
+    Error,
+}
+
+/// Reference prefix-integer decoder: RFC 7541 §5.1 pseudo-code, plus the
+/// implementation limit the property names ("integer overflow" is an error):
+/// at most 4 continuation octets (values < 2^28 + 2^N - 1).
+pub(crate) fn ref_decode_int(b: &[u8], prefix: u8) -> RefInt {
+    if b.is_empty() {
+        return RefInt::NeedMore;
+    }
+    let max: u64 = (1u64 << prefix) - 1;
+    let mut i: u64 = (b[0] as u64) & max;
+    if i < max {
+        return RefInt::Val(i, 1);
+    }
+    let mut m: u32 = 0;
+    let mut k = 1;
+    loop {
+        if k >= b.len() {
+            return RefInt::NeedMore;
+        }
+        let o = b[k];
+        i += ((o & 127) as u64) << m;
+        m += 7;
+        k += 1;
+        if o & 128 == 0 {
+            return RefInt::Val(i, k);
+        }
+        if k == 5 {
+            return RefInt::Error;
+        }
+    }
+}
+
+/// C11.int / C08.int: `decode_int` equals the reference on every 6-byte string,
+/// every length 0..=6 and every prefix 1..=8; prefix 0 and > 8 are errors.
+pub fn c11_int_decode() {
+    let bytes: [u8; 6] = kani::any();
+    let n: usize = kani::any();
+    kani::assume(n <= 6);
+    let prefix: u8 = kani::any();
+    let mut buf = &bytes[..n];
+    let got = decode_int(&mut buf, prefix);
+    let consumed = n - buf.len();
+    if prefix < 1 || prefix > 8 {
+        assert!(got == Err(DecoderError::InvalidIntegerPrefix));
+        assert!(consumed == 0);
+    } else {
+        match ref_decode_int(&bytes[..n], prefix) {
+            RefInt::Val(v, k) => {
+                assert!(got == Ok(v as usize), "decode_int: value differs from RFC 7541 5.1");
+                assert!(consumed == k, "decode_int: consumed octets differ");
+            }
+            RefInt::NeedMore => {
+                assert!(got == Err(DecoderError::NeedMore(NeedMore::IntegerUnderflow)),
+                    "decode_int: a strict prefix of an integer must report NeedMore");
+            }
+            RefInt::Error => {
+                assert!(got == Err(DecoderError::IntegerOverflow), "decode_int: over-long integer accepted");
+            }
+        }
+    }
+    kani::cover!(matches!(got, Ok(v) if v > 1 << 27), "large_value");
+    kani::cover!(got == Err(DecoderError::IntegerOverflow), "overflow");
+    kani::cover!(matches!(got, Err(DecoderError::NeedMore(_))) && n == 4, "need_more");
+    kani::cover!(true, "end");
+}
+
+/// C11 representation dispatch: every first octet maps to the RFC 7541 §6 representation.
+pub fn c11_representation_load() {
+    let b: u8 = kani::any();
+    let r = Representation::load(b);
+    let want = if b & 0x80 != 0 { 0 } else if b & 0x40 != 0 { 1 } else if b & 0x20 != 0 { 4 }
+               else if b & 0x10 != 0 { 3 } else { 2 };
+    match r {
+        Ok(Representation::Indexed) => assert!(want == 0),
+        Ok(Representation::LiteralWithIndexing) => assert!(want == 1),
+        Ok(Representation::LiteralWithoutIndexing) => assert!(want == 2),
+        Ok(Representation::LiteralNeverIndexed) => assert!(want == 3),
+        Ok(Representation::SizeUpdate) => assert!(want == 4),
+        Err(_) => panic!("every octet is a valid representation start in RFC 7541"),
+    }
+    kani::cover!(true, "end");
+}
